@@ -76,12 +76,16 @@ theorem adjustSlot_seg (c : Ctx) (d : Int) (so : Option Nat) : (adjustSlot c d s
       · rw [adjustFwd_seg]; exact adjustStart_seg c d
       · exact adjustStart_seg c d
 
-/-- a property of the segment that every rule action, with the garbage collection after it, keeps -/
-def ActionKeeps (Q : Seg → Prop) : Prop :=
+/-- a property of the segment that every rule action whose code satisfies `OK`, with the garbage collection after it, keeps -/
+def ActionKeepsIf (OK : List Instr → Prop) (Q : Seg → Prop) : Prop :=
   ∀ (is : List Instr) (dl : Bool) (mr : Nat) (data : List Nat) (ctx : Ctx) (r : Int) (st : Status) (so : Option Nat) (c : Ctx),
-    Q ctx.seg → doAction is dl mr data ctx = .ok (r, st, so, c) → Q c.seg
+    OK is → Q ctx.seg → doAction is dl mr data ctx = .ok (r, st, so, c) → Q c.seg
 
-theorem findNDoRule_keeps (Q : Seg → Prop) (hQ : ActionKeeps Q) (p : PassT) (c : Ctx) (slot : Nat) (h : Q c.seg)
+/-- the action code of every rule of the pass (as the loader decodes it, with its `temp_copy` insertions) satisfies `OK` -/
+def PassOK (OK : List Instr → Prop) (p : PassT) : Prop :=
+  ∀ (r : Nat) (k : Code), mkCode (p.rules.getD r default).action true = some k → OK k.instrs
+
+theorem findNDoRule_keepsIf (OK : List Instr → Prop) (Q : Seg → Prop) (hQ : ActionKeepsIf OK Q) (p : PassT) (hp : PassOK OK p) (c : Ctx) (slot : Nat) (h : Q c.seg)
     {c' : Ctx} {s' : Option Nat} {st : Status} (e : findNDoRule p c slot = .ok (c', s', st)) : Q c'.seg := by
   have f1 := runFSM_seg p c slot
   unfold findNDoRule at e
@@ -102,10 +106,11 @@ theorem findNDoRule_keeps (Q : Seg → Prop) (hQ : ActionKeeps Q) (p : PassT) (c
       · cases e; exact h1
       · split at e
         · cases e
-        · split at e
+        · rename_i k hk
+          split at e
           · cases e
           · rename_i ret status slotOut c2 hact
-            have h2 : Q c2.seg := hQ _ _ _ _ _ _ _ _ _ h1 hact
+            have h2 : Q c2.seg := hQ _ _ _ _ _ _ _ _ _ (hp _ _ hk) h1 hact
             split at e
             · cases e; exact h2
             · have a1 := adjustSlot_seg c2 ret slotOut
@@ -117,7 +122,7 @@ theorem findNDoRule_keeps (Q : Seg → Prop) (hQ : ActionKeeps Q) (p : PassT) (c
               cases e
               rw [a1]; exact h2
 
-theorem ruleLoop_keeps (Q : Seg → Prop) (hQ : ActionKeeps Q) (p : PassT) : ∀ (fuel : Nat) (c : Ctx) (s : Nat) (lc : Int) (it : Nat),
+theorem ruleLoop_keepsIf (OK : List Instr → Prop) (Q : Seg → Prop) (hQ : ActionKeepsIf OK Q) (p : PassT) (hp : PassOK OK p) : ∀ (fuel : Nat) (c : Ctx) (s : Nat) (lc : Int) (it : Nat),
     Q c.seg → ∀ {c' : Ctx} {n : Nat}, ruleLoop p fuel c s lc it = .ok (some c', n) → Q c'.seg := by
   intro fuel
   induction fuel with
@@ -128,7 +133,7 @@ theorem ruleLoop_keeps (Q : Seg → Prop) (hQ : ActionKeeps Q) (p : PassT) : ∀
     split at e
     · cases e
     · rename_i c1 s1 st hf
-      have h1 : Q c1.seg := findNDoRule_keeps Q hQ p c s h hf
+      have h1 : Q c1.seg := findNDoRule_keepsIf OK Q hQ p hp c s h hf
       split at e
       · cases e
       · split at e
@@ -147,7 +152,7 @@ theorem ruleLoop_keeps (Q : Seg → Prop) (hQ : ActionKeeps Q) (p : PassT) : ∀
               · cases e; exact h1
             · exact ih _ _ _ _ h1 e
 
-theorem runPass_keeps (Q : Seg → Prop) (hQ : ActionKeeps Q) (p : PassT) (c : Ctx) (fuel : Nat) (h : Q c.seg) {c' : Ctx}
+theorem runPass_keepsIf (OK : List Instr → Prop) (Q : Seg → Prop) (hQ : ActionKeepsIf OK Q) (p : PassT) (hp : PassOK OK p) (c : Ctx) (fuel : Nat) (h : Q c.seg) {c' : Ctx}
     (e : runPass p c fuel = .ok (some c')) : Q c'.seg := by
   unfold runPass at e
   split at e
@@ -161,33 +166,29 @@ theorem runPass_keeps (Q : Seg → Prop) (hQ : ActionKeeps Q) (p : PassT) (c : C
       · rename_i c2 it hr
         cases e
         rw [noteLoop_seg]
-        exact ruleLoop_keeps Q hQ p _ _ _ _ 0 (show Q (c.restartAt _).seg from h) hr
+        exact ruleLoop_keepsIf OK Q hQ p hp _ _ _ _ 0 (show Q (c.restartAt _).seg from h) hr
 
 /-- the property survives a reversal of the stream -/
 def ReverseKeeps (Q : Seg → Prop) : Prop := ∀ (s : Seg) (mark : Nat → Bool), Q s → Q (s.reverseSlots mark)
 
-theorem runPassDir_keeps (Q : Seg → Prop) (hQ : ActionKeeps Q) (hR : ReverseKeeps Q) (p : PassT) (c : Ctx) (fuel : Nat) (h : Q c.seg) {c' : Ctx}
+theorem runPassDir_keepsIf (OK : List Instr → Prop) (Q : Seg → Prop) (hQ : ActionKeepsIf OK Q) (hR : ReverseKeeps Q) (p : PassT) (hp : PassOK OK p) (c : Ctx) (fuel : Nat) (h : Q c.seg) {c' : Ctx}
     (e : runPassDir p c fuel = .ok (some c')) : Q c'.seg := by
   unfold runPassDir at e
   split at e
   · cases e; exact h
   · simp only [] at e
-    refine runPass_keeps Q hQ p _ fuel ?_ e
+    refine runPass_keepsIf OK Q hQ p hp _ fuel ?_ e
     split
     · exact hR _ _ h
     · exact h
 
-theorem runRange_keeps (Q : Seg → Prop) (hQ : ActionKeeps Q) (hR : ReverseKeeps Q) (passes : Array PassT) (c : Ctx) (lo hi fuel : Nat) (h : Q c.seg)
+theorem runRange_keepsIf (OK : List Instr → Prop) (Q : Seg → Prop) (hQ : ActionKeepsIf OK Q) (hR : ReverseKeeps Q) (passes : Array PassT) (c : Ctx) (lo hi fuel : Nat)
+    (hpo : ∀ k, k < hi - lo → PassOK OK (passes.getD (lo + k) default)) (h : Q c.seg)
     {c' : Ctx} (e : runRange passes c lo hi fuel = .ok (some c')) : Q c'.seg := by
   unfold runRange at e
   simp only [] at e
-  revert e
-  have h0 : Q (c.beginRange (c.seg.numGlyphs * 64)).seg := h
-  revert h0
-  generalize (c.beginRange (c.seg.numGlyphs * 64)) = c0
-  generalize (List.range (hi - lo)) = ks
-  intro h0
-  have : ∀ (ks : List Nat) (acc : Except String (Option Ctx)), (∀ x, acc = .ok (some x) → Q x.seg) →
+  have : ∀ (ks : List Nat), (∀ k ∈ ks, PassOK OK (passes.getD (lo + k) default)) →
+      ∀ (acc : Except String (Option Ctx)), (∀ x, acc = .ok (some x) → Q x.seg) →
       ∀ x, ks.foldl (fun (acc : Except String (Option Ctx)) k =>
         match acc with
         | .ok (some c1) =>
@@ -197,28 +198,46 @@ theorem runRange_keeps (Q : Seg → Prop) (hQ : ActionKeeps Q) (hR : ReverseKeep
         | o => o) acc = .ok (some x) → Q x.seg := by
     intro ks
     induction ks with
-    | nil => intro acc ha x hx; exact ha x hx
+    | nil => intro _ acc ha x hx; exact ha x hx
     | cons k rest ih =>
-      intro acc ha x hx
+      intro hk acc ha x hx
       simp only [List.foldl_cons] at hx
-      refine ih _ ?_ x hx
+      refine ih (fun k' hk' => hk k' (List.mem_cons_of_mem _ hk')) _ ?_ x hx
       intro y hy
       split at hy
       · rename_i c1
         split at hy
-        · rename_i c2 hp
+        · rename_i c2 hrp
           split at hy
           · cases hy
           · cases hy
-            exact runPassDir_keeps Q hQ hR _ c1 fuel (ha c1 rfl) hp
+            exact runPassDir_keepsIf OK Q hQ hR _ (hk k List.mem_cons_self) c1 fuel (ha c1 rfl) hrp
         · rename_i o hno
           exact absurd hy (by
             intro hh
             exact hno y (by rw [hh]))
       · rename_i o hno
         exact absurd hy (fun hh => hno y hh)
-  intro e
-  exact this ks (.ok (some c0)) (fun x hx => by cases hx; exact h0) c' e
+  exact this (List.range (hi - lo)) (fun k hk => hpo k (List.mem_range.mp hk)) (.ok (some (c.beginRange (c.seg.numGlyphs * 64))))
+    (fun x hx => by cases hx; exact h) c' e
+
+/-! the unconditional versions: every rule action keeps the property -/
+
+/-- a property of the segment that every rule action, with the garbage collection after it, keeps -/
+def ActionKeeps (Q : Seg → Prop) : Prop :=
+  ∀ (is : List Instr) (dl : Bool) (mr : Nat) (data : List Nat) (ctx : Ctx) (r : Int) (st : Status) (so : Option Nat) (c : Ctx),
+    Q ctx.seg → doAction is dl mr data ctx = .ok (r, st, so, c) → Q c.seg
+
+theorem ActionKeeps.toIf {Q : Seg → Prop} (h : ActionKeeps Q) : ActionKeepsIf (fun _ => True) Q :=
+  fun is dl mr data ctx r st so c _ hq e => h is dl mr data ctx r st so c hq e
+
+theorem runPass_keeps (Q : Seg → Prop) (hQ : ActionKeeps Q) (p : PassT) (c : Ctx) (fuel : Nat) (h : Q c.seg) {c' : Ctx}
+    (e : runPass p c fuel = .ok (some c')) : Q c'.seg :=
+  runPass_keepsIf (fun _ => True) Q hQ.toIf p (fun _ _ _ => trivial) c fuel h e
+
+theorem runRange_keeps (Q : Seg → Prop) (hQ : ActionKeeps Q) (hR : ReverseKeeps Q) (passes : Array PassT) (c : Ctx) (lo hi fuel : Nat) (h : Q c.seg)
+    {c' : Ctx} (e : runRange passes c lo hi fuel = .ok (some c')) : Q c'.seg :=
+  runRange_keepsIf (fun _ => True) Q hQ.toIf hR passes c lo hi fuel (fun _ _ _ _ _ => trivial) h e
 
 theorem reverse_assoc (n : Int) : ReverseKeeps (AssocOK n) := by
   intro s mark h
